@@ -369,6 +369,18 @@ def lighter_or_equal_none(inst: D.Inst, w: int) -> bool:
     return lighter_mitm(inst, w) is None
 
 
+def class_file(cls):
+    """source file of a code class, relative to the checkout"""
+    import inspect
+    import os
+    import panqec.codes as C
+    from harness.core import REPO
+    try:
+        return os.path.relpath(inspect.getsourcefile(getattr(C, cls)), str(REPO))
+    except Exception:  # noqa
+        return None
+
+
 def oracle(ctx, deep=False, broken=None):
     rng = ctx.np_rng(171)
     cases = []
@@ -396,15 +408,28 @@ def oracle(ctx, deep=False, broken=None):
             if bigger:
                 for i in sorted(rng.choice(len(bigger), min(len(bigger), 4), replace=False)):
                     cases.append({'class': cls, 'size': list(bigger[i]), 'deform': [None, {}], 'max_w': 3, 'milp': False})
+    # classes whose own source file changed since the recorded green state: elongated lattices with
+    # pairwise different sides (where an axis mix-up in the lattice definition shows), exact search by MILP
+    focus = [cls for cls in K.CLASSES if class_file(cls) in set(getattr(ctx, 'changed_files', []) or [])]
+    for cls in focus:
+        sizes = set(map(tuple, R.instance_sizes(cls)))
+        lim = 9 if K.dimension(cls) == 2 else 7
+        cand = [x for x in K.all_sizes(cls, lim, n_max=260) if tuple(x) not in sizes and max(x) >= 5
+                and len(set(x)) == len(x)]
+        cand.sort(key=lambda x: (K.qubit_count(cls, x), x))
+        step = max(1, len(cand) // 18)
+        for x in cand[::step][:18]:
+            cases.append({'class': cls, 'size': list(x), 'deform': [None, {}], 'max_w': 3, 'milp': True,
+                          'always': True, 'focus': True, 'max_logicals': 8})
     # MILP budget: spread over the cases that ask for it
     milp_cases = [c for c in cases if c.get('milp')]
     for c in milp_cases:
-        c['time_limit'] = 4.0 if deep else 2.5
+        c['time_limit'] = 8.0 if c.get('focus') else 4.0 if deep else 2.5
     fails, errs = [], 0
     t0 = time.time()
     milp_deadline = 420 if ctx.thorough else 150
     for c in sorted(cases, key=lambda c: (K.qubit_count(c['class'], tuple(c['size'])), c['class'])):
-        if c.get('milp') and time.time() - t0 > milp_deadline:
+        if c.get('milp') and not c.get('focus') and time.time() - t0 > milp_deadline:
             c['milp'] = False
         f, err = oracle_case(c, deep)
         if err:
